@@ -9,6 +9,7 @@ import (
 	"os"
 	"os/exec"
 	"path/filepath"
+	"runtime"
 	"sort"
 	"strconv"
 	"strings"
@@ -640,6 +641,11 @@ func (cl *Cluster) StopGraceful(m *Machine) bool {
 		case <-done:
 		case <-time.After(2 * time.Minute):
 			ok = false
+			if os.Getenv("VERIF_DUMP_STACKS") != "" {
+				buf := make([]byte, 1<<22)
+				buf = buf[:runtime.Stack(buf, true)]
+				fmt.Fprintf(core.Stdout, "---- goroutines at graceful-stop timeout ----\n%s\n", buf)
+			}
 		}
 		synctest.Wait()
 	}
